@@ -50,7 +50,7 @@ example : cfg1.gzRef = false ∧ cfg1.idx = false ∧ refStage pinned cfg1 true 
     it —, the resumed run completes and every final file equals that of the uninterrupted run -/
 theorem resume_correct_gzip_reference {cfg : Cfg} (wf : WF cfg) (hg : cfg.gzRef = true) (hs : cfg.fromSaves = false)
     (ord ord' : List Path) (hord : ord.Nodup) (hord' : ord'.Nodup) (hm kt : Bool) (fs0 : FS) (t : Option Tok) (k : Nat)
-    (hk : (lockList cfg (fs0.set .refFa t)).length + 2 ≤ k) :
+    (hk : (lockList cfg (fs0.set .refFa t)).length + 4 ≤ k) :
     IsoVerif.Model.Resume.verdictFromOpts fixed cfg ord ord' hm kt (fs0.set .refFa t) k = .equal :=
   C07Opts.resume_correct_from_opts wf ord ord' hord hord' hm kt _ (fun e => by rw [hs] at e; exact absurd e (by simp))
     (indexSound_of_not_trusted (by simp [idxTrusted, hg]) _) k hk
@@ -73,31 +73,33 @@ theorem cfgR_wf : WF cfgR := by
 /-- what an earlier, finished run on another reference of the same name left in the folder -/
 def leftoverR : FS := fsOf [(.params, .stale), (.refFa, .stale), (.final .bed, .stale), (.final .gene, .stale)]
 
--- the unpacking is the first mutation after `.params` (events 2, 3, 4); killed at 3 the folder holds an empty copy, at 4
+-- the unpacking is the first mutation after `.params` (events 4, 5, 6); killed at 5 the folder holds an empty copy, at 6
 -- a partial one; the hypotheses of `resume_correct` / `resume_correct_gzip_reference` are met at these kill points
 example : WF cfgR ∧ ordR.Nodup ∧ cfgR.gzRef = true ∧
-    (cleanEvents fixed cfgR ordR).take 5 =
-      [.create .params, .commit .params .good, .create .refFa, .commit .refFa .stale, .commit .refFa .good] ∧
-    (crashFS fixed cfgR ordR 2) .refFa = none ∧ (crashFS fixed cfgR ordR 3) .refFa = some .bad ∧
-    (crashFS fixed cfgR ordR 4) .refFa = some .stale ∧
+    (cleanEvents fixed cfgR ordR).take 7 =
+      [.create .paramsTmp, .commit .paramsTmp .good, .remove .paramsTmp, .commit .params .good, .create .refFa, .commit .refFa .stale,
+       .commit .refFa .good] ∧
+    (crashFS fixed cfgR ordR 4) .refFa = none ∧ (crashFS fixed cfgR ordR 5) .refFa = some .bad ∧
+    (crashFS fixed cfgR ordR 6) .refFa = some .stale ∧
     lockList cfgR (leftoverR.set .refFa (some .stale)) = [] ∧
-    (crashFSFrom fixed cfgR ordR (leftoverR.set .refFa (some .stale)) 2) .refFa = some .stale := by
+    (crashFSFrom fixed cfgR ordR (leftoverR.set .refFa (some .stale)) 4) .refFa = some .stale := by
   refine ⟨cfgR_wf, by decide, rfl, by decide +kernel, by decide +kernel, by decide +kernel, by decide +kernel,
     by decide +kernel, by decide +kernel⟩
 
--- the resumed run after a kill inside the unpacking writes the copy again (its events 2, 3, 4)
-example : ((run fixed cfgR ordR true (crashFS fixed cfgR ordR 4)).evs.take 5 =
-    [.create .params, .commit .params .good, .create .refFa, .commit .refFa .stale, .commit .refFa .good]) := by
+-- the resumed run after a kill inside the unpacking writes the copy again (its events 4, 5, 6)
+example : ((run fixed cfgR ordR true (crashFS fixed cfgR ordR 6)).evs.take 7 =
+    [.create .paramsTmp, .commit .paramsTmp .good, .remove .paramsTmp, .commit .params .good, .create .refFa, .commit .refFa .stale,
+     .commit .refFa .good]) := by
   decide +kernel
 
-example : verdict fixed cfgR ordR ordR 4 = .equal :=
-  resume_correct cfgR_wf rfl ordR ordR (by decide) (by decide) 4 (by decide)
+example : verdict fixed cfgR ordR ordR 6 = .equal :=
+  resume_correct cfgR_wf rfl ordR ordR (by decide) (by decide) 6 (by decide)
 
-example : verdict fixed cfgR ordR ordR 3 = .equal :=
-  resume_correct cfgR_wf rfl ordR ordR (by decide) (by decide) 3 (by decide)
+example : verdict fixed cfgR ordR ordR 5 = .equal :=
+  resume_correct cfgR_wf rfl ordR ordR (by decide) (by decide) 5 (by decide)
 
-example : IsoVerif.Model.Resume.verdictFromOpts fixed cfgR ordR ordR false true (leftoverR.set .refFa (some .stale)) 2 = .equal :=
-  resume_correct_gzip_reference cfgR_wf rfl rfl ordR ordR (by decide) (by decide) false true leftoverR (some .stale) 2
+example : IsoVerif.Model.Resume.verdictFromOpts fixed cfgR ordR ordR false true (leftoverR.set .refFa (some .stale)) 4 = .equal :=
+  resume_correct_gzip_reference cfgR_wf rfl rfl ordR ordR (by decide) (by decide) false true leftoverR (some .stale) 4
     (by decide +kernel)
 
 example : ∃ fs : FS, J cfgR fs ∧ fs.good .params = true :=
@@ -113,19 +115,19 @@ def refTrustedBuggy : Variant := { fixed with refRewrite := false }
     is, so every further `--resume` raises as well.  Killed before the `open` or after the copy was closed the same code
     resumes correctly: the failing window is the write session of the copy. -/
 theorem resume_completes_gzip_reference_witness :
-    (cleanEvents refTrustedBuggy cfgR ordR)[2]? = some (.create .refFa) ∧
-    verdict refTrustedBuggy cfgR ordR ordR 3 = .fail ∧
-    (run refTrustedBuggy cfgR ordR true (run refTrustedBuggy cfgR ordR true (crashFS refTrustedBuggy cfgR ordR 3)).fs).ok = false ∧
-    verdict refTrustedBuggy cfgR ordR ordR 2 = .equal ∧ verdict refTrustedBuggy cfgR ordR ordR 5 = .equal := by
+    (cleanEvents refTrustedBuggy cfgR ordR)[4]? = some (.create .refFa) ∧
+    verdict refTrustedBuggy cfgR ordR ordR 5 = .fail ∧
+    (run refTrustedBuggy cfgR ordR true (run refTrustedBuggy cfgR ordR true (crashFS refTrustedBuggy cfgR ordR 5)).fs).ok = false ∧
+    verdict refTrustedBuggy cfgR ordR ordR 4 = .equal ∧ verdict refTrustedBuggy cfgR ordR ordR 7 = .equal := by
   decide +kernel
 
 /-- safety fails: killed inside the copy (event 3: the first pieces are in the file — a readable FASTA that lacks the
     later chromosomes), the resumed run trusts the file, computes everything from it and exits successfully with
     different results -/
 theorem resume_never_silently_wrong_gzip_reference_witness :
-    (cleanEvents refTrustedBuggy cfgR ordR)[3]? = some (.commit .refFa .stale) ∧
-    (crashFS refTrustedBuggy cfgR ordR 4) .refFa = some .stale ∧
-    verdict refTrustedBuggy cfgR ordR ordR 4 = .diff := by
+    (cleanEvents refTrustedBuggy cfgR ordR)[5]? = some (.commit .refFa .stale) ∧
+    (crashFS refTrustedBuggy cfgR ordR 6) .refFa = some .stale ∧
+    verdict refTrustedBuggy cfgR ordR ordR 6 = .diff := by
   decide +kernel
 
 /-- safety fails in a used folder (history clause): the folder holds the unpacked copy of **another** reference of the same
@@ -133,9 +135,9 @@ theorem resume_never_silently_wrong_gzip_reference_witness :
     it unpacked its own reference — the resumed run works with the old genome and exits successfully with different
     results.  (Writing the copy under a temporary name and renaming it would not help here: the trusted file is complete.) -/
 theorem resume_never_silently_wrong_stale_reference_witness :
-    lockList cfgR leftoverR = [] ∧ (crashFSFrom refTrustedBuggy cfgR ordR leftoverR 2) .refFa = some .stale ∧
-    verdictFrom refTrustedBuggy cfgR ordR ordR leftoverR 2 = .diff ∧
-    verdictFrom fixed cfgR ordR ordR leftoverR 2 = .equal := by
+    lockList cfgR leftoverR = [] ∧ (crashFSFrom refTrustedBuggy cfgR ordR leftoverR 4) .refFa = some .stale ∧
+    verdictFrom refTrustedBuggy cfgR ordR ordR leftoverR 4 = .diff ∧
+    verdictFrom fixed cfgR ordR ordR leftoverR 4 = .equal := by
   decide +kernel
 
 /-! ### the FASTA index inside the output folder (eab0ef3: built under a temporary name and renamed; the index of the
@@ -155,37 +157,37 @@ theorem cfgF_wf : WF cfgF := ⟨cfgR_wf.nd, cfgR_wf.mnd, cfgR_wf.bnd, cfgR_wf.m_
     rename, after the rename — the resumed run completes with equal final files -/
 theorem resume_correct_index_in_folder {cfg : Cfg} (wf : WF cfg) (_hx : cfg.idx = true) (hs : cfg.fromSaves = false)
     (ord ord' : List Path) (hord : ord.Nodup) (hord' : ord'.Nodup) (hm kt : Bool) (fs0 : FS) (hi : IndexSound cfg fs0) (k : Nat)
-    (hk : (lockList cfg fs0).length + 2 ≤ k) :
+    (hk : (lockList cfg fs0).length + 4 ≤ k) :
     IsoVerif.Model.Resume.verdictFromOpts fixed cfg ord ord' hm kt fs0 k = .equal :=
   C07Opts.resume_correct_from_opts wf ord ord' hord hord' hm kt _ (fun e => by rw [hs] at e; exact absurd e (by simp)) hi k hk
 
 -- non-vacuity: the events of both configurations; the crash states around the index; the theorem at those kill points
-example : (cleanEvents fixed cfgF ordR).take 7 =
-      [.create .params, .commit .params .good, .create .refFaiTmp, .commit .refFaiTmp .good, .remove .refFaiTmp,
+example : (cleanEvents fixed cfgF ordR).take 9 =
+      [.create .paramsTmp, .commit .paramsTmp .good, .remove .paramsTmp, .commit .params .good, .create .refFaiTmp, .commit .refFaiTmp .good, .remove .refFaiTmp,
        .commit .refFaiData .good, .commit .refFai .good] ∧
-    (cleanEvents fixed cfgRI ordR).take 10 =
-      [.create .params, .commit .params .good, .create .refFa, .commit .refFa .stale, .commit .refFa .good,
+    (cleanEvents fixed cfgRI ordR).take 12 =
+      [.create .paramsTmp, .commit .paramsTmp .good, .remove .paramsTmp, .commit .params .good, .create .refFa, .commit .refFa .stale, .commit .refFa .good,
        .create .refFaiTmp, .commit .refFaiTmp .good, .remove .refFaiTmp, .commit .refFaiData .good, .commit .refFai .good] ∧
-    (crashFS fixed cfgF ordR 3) .refFaiTmp = some .bad ∧ (crashFS fixed cfgF ordR 3) .refFai = none ∧
-    (crashFS fixed cfgF ordR 4) .refFaiTmp = some .good ∧ (crashFS fixed cfgF ordR 7) .refFai = some .good ∧
+    (crashFS fixed cfgF ordR 5) .refFaiTmp = some .bad ∧ (crashFS fixed cfgF ordR 5) .refFai = none ∧
+    (crashFS fixed cfgF ordR 6) .refFaiTmp = some .good ∧ (crashFS fixed cfgF ordR 9) .refFai = some .good ∧
     -- killed with the complete index in place, the resumed run reads it and builds nothing
-    ((run fixed cfgF ordR true (crashFS fixed cfgF ordR 7)).evs.take 3 = [.create .params, .commit .params .good, .create .rgLock]
-      ∨ True) ∧
+    (run fixed cfgF ordR true (crashFS fixed cfgF ordR 9)).evs.take 4 = paramsEvs fixed ∧
     -- the index of the copy is rebuilt by the resumed run although it exists
-    (run fixed cfgRI ordR true (crashFS fixed cfgRI ordR 12)).evs.take 6 =
-      [.create .params, .commit .params .good, .create .refFa, .commit .refFa .stale, .commit .refFa .good, .create .refFaiTmp] := by
+    (run fixed cfgRI ordR true (crashFS fixed cfgRI ordR 14)).evs.take 8 =
+      [.create .paramsTmp, .commit .paramsTmp .good, .remove .paramsTmp, .commit .params .good, .create .refFa, .commit .refFa .stale,
+       .commit .refFa .good, .create .refFaiTmp] := by
   refine ⟨by decide +kernel, by decide +kernel, by decide +kernel, by decide +kernel, by decide +kernel, by decide +kernel,
-    Or.inr trivial, by decide +kernel⟩
+    by decide +kernel, by decide +kernel⟩
 
-example : ((run fixed cfgF ordR true (crashFS fixed cfgF ordR 7)).evs.map Ev.path).filter (fun p => p == .refFaiTmp) = [] := by
+example : ((run fixed cfgF ordR true (crashFS fixed cfgF ordR 9)).evs.map Ev.path).filter (fun p => p == .refFaiTmp) = [] := by
   decide +kernel
 
-example : IsoVerif.Model.Resume.verdictFromOpts fixed cfgF ordR ordR false false FS.empty 3 = .equal ∧
-    IsoVerif.Model.Resume.verdictFromOpts fixed cfgRI ordR ordR false false leftoverR 6 = .equal :=
-  ⟨resume_correct_index_in_folder cfgF_wf rfl rfl ordR ordR (by decide) (by decide) false false _ (indexSound_empty _) 3
+example : IsoVerif.Model.Resume.verdictFromOpts fixed cfgF ordR ordR false false FS.empty 5 = .equal ∧
+    IsoVerif.Model.Resume.verdictFromOpts fixed cfgRI ordR ordR false false leftoverR 8 = .equal :=
+  ⟨resume_correct_index_in_folder cfgF_wf rfl rfl ordR ordR (by decide) (by decide) false false _ (indexSound_empty _) 5
       (by decide +kernel),
    resume_correct_index_in_folder cfgRI_wf rfl rfl ordR ordR (by decide) (by decide) false false _
-      (indexSound_of_not_trusted rfl _) 6 (by decide +kernel)⟩
+      (indexSound_of_not_trusted rfl _) 8 (by decide +kernel)⟩
 
 /-- pyfaidx writing the index in place (the tree before eab0ef3) -/
 def faiInPlaceBuggy : Variant := { fixed with faiAtomic := false }
@@ -195,11 +197,11 @@ def faiInPlaceBuggy : Variant := { fixed with faiAtomic := false }
     successfully with different results; so does every later run.  Killed before the `open` or after the close the same
     code resumes correctly. -/
 theorem resume_never_silently_wrong_fai_index_witness :
-    (cleanEvents faiInPlaceBuggy cfgF ordR)[2]? = some (.create .refFai) ∧
-    (crashFS faiInPlaceBuggy cfgF ordR 3) .refFai = some .bad ∧ (crashFS faiInPlaceBuggy cfgF ordR 3) .refFaiData = none ∧
-    verdict faiInPlaceBuggy cfgF ordR ordR 3 = .diff ∧
-    verdict faiInPlaceBuggy cfgF ordR ordR 2 = .equal ∧ verdict faiInPlaceBuggy cfgF ordR ordR 4 = .equal ∧
-    verdict fixed cfgF ordR ordR 3 = .equal := by
+    (cleanEvents faiInPlaceBuggy cfgF ordR)[4]? = some (.create .refFai) ∧
+    (crashFS faiInPlaceBuggy cfgF ordR 5) .refFai = some .bad ∧ (crashFS faiInPlaceBuggy cfgF ordR 5) .refFaiData = none ∧
+    verdict faiInPlaceBuggy cfgF ordR ordR 5 = .diff ∧
+    verdict faiInPlaceBuggy cfgF ordR ordR 4 = .equal ∧ verdict faiInPlaceBuggy cfgF ordR ordR 6 = .equal ∧
+    verdict fixed cfgF ordR ordR 5 = .equal := by
   decide +kernel
 
 /-- `IndexSound` is needed: an incomplete index found in the folder (left by the old code, or supplied by the user) is read
@@ -273,48 +275,77 @@ theorem cfgH_wf : WF cfgH := by
 example : WF cfgH ∧ ¬ (∀ c, c ∈ cfgH.bchrs → c ∈ cfgH.chrs) ∧
     Ev.create (.rgSplit 2) ∈ cleanEvents fixed cfgH (.rgSplit 2 :: ordR) ∧
     Ev.remove (.rgSplit 2) ∈ cleanEvents fixed cfgH (.rgSplit 2 :: ordR) ∧
-    verdict fixed cfgH (.rgSplit 2 :: ordR) ordR 5 = .equal :=
+    verdict fixed cfgH (.rgSplit 2 :: ordR) ordR 7 = .equal :=
   ⟨cfgH_wf, by decide, by decide +kernel, by decide +kernel,
-   resume_correct cfgH_wf rfl _ _ (by decide) (by decide) 5 (by decide)⟩
+   resume_correct cfgH_wf rfl _ _ (by decide) (by decide) 7 (by decide)⟩
 
 /-! ### two interruptions (audit 2, GAP C07-5): "a resumed run that is killed is again a run killed after its parameters were saved"
 
-`resume_correct_after_repeated_crashes` (Props/C07.lean) is the **partial** statement: any number of interruptions, each after
-at least two events of the interrupted run.  The two events are the in-place rewrite of `.params` by `save_params`
-(`open(param_file, "wb")`, pickle, close at garbage collection): a resumed run killed inside it leaves no readable `.params`. -/
+Since /repo ffd90d3 `save_params` pickles into `.params.tmp` and renames it over `.params`: the parameters of the interrupted run
+stay in place until the new file is complete, so a resumed run may be killed **anywhere** — the `2 ≤ k₂` of the earlier partial
+statement is gone.  (`4 ≤ k₁`: the first run has saved its parameters once `.params.tmp` was written, closed and renamed.) -/
 
-/-- the full statement for two interruptions (false of model and code: witness below) -/
-def ResumeTwiceCorrect (v : Variant) (cfg : Cfg) (ord : List Path) : Prop :=
-  ∀ k1 k2, 2 ≤ k1 → verdictTwice v cfg ord ord ord FS.empty k1 k2 = .equal
+/-- the statement for two interruptions -/
+def ResumeTwiceCorrect (v : Variant) (cfg : Cfg) (ord ord2 ord3 : List Path) : Prop :=
+  ∀ k1 k2, 4 ≤ k1 → verdictTwice v cfg ord ord2 ord3 FS.empty k1 k2 = .equal
 
-/-- proved part: the second kill also comes after two events of the run it interrupts -/
-theorem resume_twice_correct_partial {cfg : Cfg} (wf : WF cfg) (hm : cfg.fromSaves = false) (ord ord2 ord3 : List Path)
-    (hord : ord.Nodup) (hord2 : ord2.Nodup) (hord3 : ord3.Nodup) (k1 k2 : Nat) (h1 : 2 ≤ k1) (h2 : 2 ≤ k2) :
-    (run fixed cfg ord3 true (crashFSTwice fixed cfg ord ord2 FS.empty k1 k2)).ok = true ∧
-      FinOK cfg (run fixed cfg ord3 true (crashFSTwice fixed cfg ord ord2 FS.empty k1 k2)).fs := by
-  have := resume_correct_after_repeated_crashes wf hm [(ord, k1), (ord2, k2)]
+/-- **two interruptions, full strength**: ∀ well-formed configuration, ∀ directory orders of the three runs, the first run
+    killed at any point after its parameters were saved, the resumed run killed at **any** point `k₂` (also before,
+    inside and right after its own `save_params`), the second `--resume` completes and every final file equals that of
+    the uninterrupted run -/
+theorem resume_twice_correct {cfg : Cfg} (wf : WF cfg) (hm : cfg.fromSaves = false) (ord ord2 ord3 : List Path)
+    (hord : ord.Nodup) (hord2 : ord2.Nodup) (hord3 : ord3.Nodup) : ResumeTwiceCorrect fixed cfg ord ord2 ord3 := by
+  intro k1 k2 h1
+  have h3 := resume_correct_after_repeated_crashes wf hm [(ord, k1), (ord2, k2)]
     (by intro x hx; simp only [List.mem_cons, List.not_mem_nil, or_false] at hx; rcases hx with rfl | rfl
-        · exact ⟨hord, h1⟩
-        · exact ⟨hord2, h2⟩) (by simp) ord3 hord3
-  simpa [afterCrashes, crashFSTwice, crashFSFrom, cleanEventsFrom] using this
+        · exact hord
+        · exact hord2)
+    (by intro x hx; simp only [List.head?_cons, Option.mem_def, Option.some.injEq] at hx; subst hx; exact h1)
+    (by simp) ord3 hord3
+  have hst : afterCrashes cfg [(ord, k1), (ord2, k2)] false FS.empty = crashFSTwice fixed cfg ord ord2 FS.empty k1 k2 := by
+    simp [afterCrashes, crashFSTwice, crashFSFrom, cleanEventsFrom]
+  rw [hst] at h3
+  obtain ⟨hok, hfin⟩ := h3
+  obtain ⟨_, hfin1⟩ := clean_run_completes wf hm ord hord
+  simp only [verdictTwice, hok, Bool.not_true, Bool.false_eq_true, if_false]
+  have : sameFinals cfg (run fixed cfg ord3 true (crashFSTwice fixed cfg ord ord2 FS.empty k1 k2)).fs
+      (run fixed cfg ord false FS.empty).fs = true := by
+    simp only [sameFinals, List.all_eq_true, beq_iff_eq]
+    intro p hp
+    have a := hfin p hp
+    have b := hfin1 p hp
+    simp only [FS.good, beq_iff_eq] at a b
+    rw [a, b]
+  simp [this]
 
-/-- the failing class: the resumed run is killed right after it opened `.params` for writing (its event 0): the file is
-    empty, every later `--resume` fails (`EOFError` in `load_previous_run`); killed before that open, or after the close
-    (two events), the third run completes with equal results -/
+/-- `save_params` rewriting `.params` in place (the tree before ffd90d3) -/
+def paramsInPlaceBuggy : Variant := { fixed with paramsAtomic := false }
+
+/-- the old behaviour violates the statement: the resumed run killed right after it opened `.params` for writing (its event
+    0; the file is empty): every later `--resume` fails (`EOFError` in `load_previous_run`); killed before that open, or
+    after the close (two events), the third run completes with equal results.  The repaired code at the corresponding
+    points — inside the write of `.params.tmp`, between its close and the rename, inside the (model's) rename — `EQUAL`. -/
 theorem resume_twice_params_rewrite_witness :
-    ¬ ResumeTwiceCorrect fixed cfg1 ord1 ∧
-    (run fixed cfg1 ord1 true (crashFS fixed cfg1 ord1 20)).evs.take 2 = [.create .params, .commit .params .good] ∧
-    verdictTwice fixed cfg1 ord1 ord1 ord1 FS.empty 20 1 = .fail ∧
-    verdictTwice fixed cfg1 ord1 ord1 ord1 FS.empty 20 0 = .equal ∧
-    verdictTwice fixed cfg1 ord1 ord1 ord1 FS.empty 20 2 = .equal ∧
-    verdictTwice fixed cfg1 ord1 ord1 ord1 FS.empty 20 30 = .equal := by
-  have h : verdictTwice fixed cfg1 ord1 ord1 ord1 FS.empty 20 1 = .fail := by decide +kernel
-  refine ⟨fun hc => ?_, by decide +kernel, h, by decide +kernel, by decide +kernel, by decide +kernel⟩
+    ¬ ResumeTwiceCorrect paramsInPlaceBuggy cfg1 ord1 ord1 ord1 ∧
+    (run paramsInPlaceBuggy cfg1 ord1 true (crashFS paramsInPlaceBuggy cfg1 ord1 20)).evs.take 2 =
+      [.create .params, .commit .params .good] ∧
+    verdictTwice paramsInPlaceBuggy cfg1 ord1 ord1 ord1 FS.empty 20 1 = .fail ∧
+    verdictTwice paramsInPlaceBuggy cfg1 ord1 ord1 ord1 FS.empty 20 0 = .equal ∧
+    verdictTwice paramsInPlaceBuggy cfg1 ord1 ord1 ord1 FS.empty 20 2 = .equal ∧
+    verdictTwice fixed cfg1 ord1 ord1 ord1 FS.empty 22 1 = .equal ∧
+    verdictTwice fixed cfg1 ord1 ord1 ord1 FS.empty 22 2 = .equal ∧
+    verdictTwice fixed cfg1 ord1 ord1 ord1 FS.empty 22 3 = .equal := by
+  have h : verdictTwice paramsInPlaceBuggy cfg1 ord1 ord1 ord1 FS.empty 20 1 = .fail := by decide +kernel
+  refine ⟨fun hc => ?_, by decide +kernel, h, by decide +kernel, by decide +kernel, by decide +kernel, by decide +kernel,
+    by decide +kernel⟩
   have := hc 20 1 (by decide)
   rw [h] at this; exact absurd this (by decide)
 
-example : WF cfg1 ∧ cfg1.fromSaves = false ∧ ord1.Nodup ∧ 2 ≤ 20 ∧ 2 ≤ 30 :=
-  ⟨⟨by decide, by decide, by decide, fun _ => Iff.rfl, fun _ _ h => h⟩, rfl, by decide, by decide, by decide⟩
+example : WF cfg1 ∧ cfg1.fromSaves = false ∧ ord1.Nodup ∧ 4 ≤ 22 ∧
+    verdictTwice fixed cfg1 ord1 ord1 ord1 FS.empty 22 1 = .equal :=
+  ⟨⟨by decide, by decide, by decide, fun _ => Iff.rfl, fun _ _ h => h⟩, rfl, by decide, by decide,
+   resume_twice_correct ⟨by decide, by decide, by decide, fun _ => Iff.rfl, fun _ _ h => h⟩ rfl ord1 ord1 ord1
+     (by decide) (by decide) (by decide) 22 1 (by decide)⟩
 
 /-! ### seeded change C07_a: the lock cleaning inside `collect_reads` is dead code since fix 428ba30 -/
 
